@@ -343,7 +343,23 @@ def c18_5(ctx, ss, rule="C18.5", methods=None):
             continue
         fa, fb = a.methods[m], b.methods[m]
         if m in LOGIC:
-            if sibling.identical(fa.node, fb.node, REN):
+            def exits(f_):
+                """exit table of a function: every return / raise with its expanded value and expanded canonical path conditions —
+                the same for if/else vs guard clauses, hoisted locals, negated tests"""
+                from ..core.defuse import flow_of
+                fl = flow_of(ss, f_)
+                rows = []
+                for x in pf.walk_no_nested(f_.node):
+                    if isinstance(x, (ast.Return, ast.Raise)):
+                        conds = set()
+                        for kind, e, pol in guards.path_conditions(f_.node, x):
+                            if kind == "if":
+                                for a_, p_ in guards.canon_cond(fl.expand(e), pol):
+                                    conds.add((sibling._norm(txt(a_), REN), p_))
+                        val = x.value if isinstance(x, ast.Return) else x.exc
+                        rows.append((type(x).__name__, tuple(sorted(conds)), sibling._norm(txt(fl.expand(val)), REN) if val is not None else ""))
+                return sorted(rows)
+            if sibling.identical(fa.node, fb.node, REN) or exits(fa) == exits(fb):
                 ctx.holds(rule, k, where(fb, fb.node), f"{m}: identical logic in both generators", 2)
             else:
                 sa, sb = sibling.skeleton(fa.node, REN), sibling.skeleton(fb.node, REN)
